@@ -144,8 +144,20 @@ func (f *Flow) EdgeAtoms(b *cfg.Block, k int) []Atom {
 func WithinExprAtoms(root ast.Node, target ast.Node) []Atom {
 	var out []Atom
 	var walk func(n ast.Node) bool // returns true if target inside n
+	// structural containment (not by position: Prog.normalise exchanges the
+	// operands of comparisons in place, so positions inside them are not ordered)
 	contains := func(n ast.Node) bool {
-		return n != nil && n.Pos() <= target.Pos() && target.End() <= n.End()
+		if n == nil {
+			return false
+		}
+		found := false
+		ast.Inspect(n, func(m ast.Node) bool {
+			if m == target {
+				found = true
+			}
+			return !found
+		})
+		return found
 	}
 	walk = func(n ast.Node) bool {
 		if !contains(n) {
